@@ -166,6 +166,46 @@ pub fn run(r: &mut Runner) {
         }
     });
     {
+        // double-double neighbourhoods of the pre-images of "nice" results: k·π/180 (whole, half and quarter
+        // degrees) and r·180/π (whole and quarter radians), and of the nice arguments themselves
+        let ks: Vec<i64> = if quick { (1..=360).chain([450, 540, 720, 1080, 3600, 12345678, 1 << 20, (1 << 31) - 1, (1 << 52) + 1]).collect() } else { (1..=3600).chain([12345678, 1 << 20, (1 << 31) - 1, (1 << 40) + 1, (1 << 52) + 1]).collect() };
+        let js = crate::fx::ulp_offsets();
+        let mut bases: Vec<[f64; 2]> = vec![];
+        let pi = rf::pi(320);
+        for &k in &ks {
+            for q in [1u64, 2, 4] {
+                if q > 1 && (k > 64 || k % 2 == 0) {
+                    continue;
+                }
+                let kk = Iv::from_i64(k).div_small(q, 320);
+                bases.extend(crate::fx::dd_of(&kk.mul(&pi, 320).div_small(180, 320)));
+                bases.extend(crate::fx::dd_of(&kk.mul_small(180, 320).div(&pi, 320)));
+                bases.push([k as f64 / q as f64, 0.0]);
+            }
+        }
+        for c in const_table() {
+            bases.push([c.1.hi(), c.1.lo()]);
+        }
+        let mut nb: Vec<[f64; 2]> = vec![];
+        for b in &bases {
+            for x in crate::fx::neighbourhood(*b, &js) {
+                nb.push(x);
+                nb.push([-x[0], -x[1]]);
+            }
+        }
+        let nn = nb.len();
+        r.notes.push(format!("neighbourhoods: {} base points (k·π/180, r·180/π, whole numbers, the 19 constants) x offsets of 0..80 and 96..2^40 double-double ulps x both sides x both signs = {} operands", bases.len(), nn));
+        r.add_sample(json!({"call": "to_degrees", "x": show_dd(nb[nn / 3]), "family": "neighbourhood of a nice pre-image"}));
+        r.par("neighbourhoods of nice pre-images", nn.div_ceil(256), nn as u64, |c, l| {
+            for i in (c * 256)..((c + 1) * 256).min(nn) {
+                for call in 0..2 {
+                    let v = judge_angle(call, nb[i], Some(l));
+                    rec.record(l, (1u64 << 56) + (i * 2 + call) as u64, v);
+                }
+            }
+        });
+    }
+    {
         let org = crate::organic::states(if quick { 1 } else { 2 });
         let no = org.len();
         r.notes.push(format!("organic operands: {} chain states (depth {} from the C01 seeds)", no, if quick { 1 } else { 2 }));
